@@ -70,19 +70,8 @@ func (cj *CookieJar) getByHostAndPath(host, path []byte) []*fasthttp.Cookie {
 		return nil
 	}
 
-	var (
-		err     error
-		cookies []*fasthttp.Cookie
-		hostStr = utils.UnsafeString(host)
-	)
-
-	// port must not be included.
-	hostStr, _, err = net.SplitHostPort(hostStr)
-	if err != nil {
-		hostStr = utils.UnsafeString(host)
-	}
 	// get cookies deleting expired ones
-	cookies = cj.getCookiesByHost(hostStr)
+	cookies := cj.getCookiesByHost(utils.UnsafeString(hostWithoutPort(host)))
 
 	newCookies := make([]*fasthttp.Cookie, 0, len(cookies))
 	for i := 0; i < len(cookies); i++ {
@@ -142,6 +131,7 @@ func (cj *CookieJar) Set(uri *fasthttp.URI, cookies ...*fasthttp.Cookie) {
 //
 // CookieJar stores copies of the provided cookies, so they may be safely released after use.
 func (cj *CookieJar) SetByHost(host []byte, cookies ...*fasthttp.Cookie) {
+	host = hostWithoutPort(host)
 	hostStr := utils.UnsafeString(host)
 
 	cj.mu.Lock()
@@ -202,6 +192,7 @@ func (cj *CookieJar) dumpCookiesToReq(req *fasthttp.Request) {
 
 // parseCookiesFromResp parses the cookies from the response and stores them for the specified host.
 func (cj *CookieJar) parseCookiesFromResp(host, _ []byte, resp *fasthttp.Response) {
+	host = hostWithoutPort(host)
 	hostStr := utils.UnsafeString(host)
 
 	cj.mu.Lock()
@@ -264,6 +255,16 @@ func (cj *CookieJar) Release() {
 	//	  }
 	// }
 	cj.hostCookies = nil
+}
+
+// hostWithoutPort returns the host name the jar files cookies under: cookies are
+// not isolated by port, so lookups and stores both drop it.
+func hostWithoutPort(host []byte) []byte {
+	h, _, err := net.SplitHostPort(utils.UnsafeString(host))
+	if err != nil {
+		return host
+	}
+	return utils.UnsafeBytes(h)
 }
 
 // sameCookiePath reports whether two cookie Path attributes denote the same path.
